@@ -977,8 +977,16 @@ func doCheck(cfg tierCfg) int {
 		return &viols[len(viols)-1]
 	}
 	confirmed, unconfirmed := 0, 0
+	// fresh-process confirmations may take minutes each (a replay recomputes every expectation,
+	// one call per process): they get 55% of the hard cap; what is found after that is
+	// reported as observed, with its replay file, without re-execution
+	confirmUntil := start.Add(cfg.hardCap * 55 / 100)
+	verbose := os.Getenv("VERIF_VERBOSE") != ""
 	for i, f := range found {
 		if len(viols) >= 6 {
+			break
+		}
+		if confirmed+unconfirmed > 0 && time.Now().After(confirmUntil) {
 			break
 		}
 		var rf map[string]any
@@ -1010,6 +1018,9 @@ func doCheck(cfg tierCfg) int {
 			rp.args = append(rp.args, "-root", b.rootSerial) // prefix-only replay file
 		}
 		rp.run()
+		if verbose {
+			fmt.Printf("  confirm %s: replay exit %d in %.1fs (%d bytes)\n", tag, rp.exit, rp.wall.Seconds(), len(f.Replay))
+		}
 		if rp.exit != 1 && rp.exit != 66 && len(f.Original) > 2 && string(f.Original) != "null" && foundMode[i] != "burst" {
 			// the in-process minimisation may have relied on state left in the worker process:
 			// go back to the case as found and minimise it with fresh-process executions only
@@ -1017,10 +1028,16 @@ func doCheck(cfg tierCfg) int {
 			os.WriteFile(orig, f.Original, 0o644)
 			op := &proc{name: "replay-original", bin: bin, timeout: 10 * time.Minute, args: []string{"-mode", "replay", "-file", orig}}
 			op.run()
+			if verbose {
+				fmt.Printf("  confirm %s: replay-original exit %d in %.1fs (%d bytes)\n", tag, op.exit, op.wall.Seconds(), len(f.Original))
+			}
 			if op.exit == 1 {
 				minOut := filepath.Join(scratch, fmt.Sprintf("min-%d.json", i))
 				mp := &proc{name: "minimise", bin: bin, timeout: 5 * time.Minute, args: []string{"-mode", "minimise", "-file", orig, "-out", minOut, "-seconds", "20"}}
 				mp.run()
+				if verbose {
+					fmt.Printf("  confirm %s: minimise exit %d in %.1fs\n", tag, mp.exit, mp.wall.Seconds())
+				}
 				src := orig
 				if mp.exit == 0 {
 					src = minOut
@@ -1042,6 +1059,9 @@ func doCheck(cfg tierCfg) int {
 			os.WriteFile(v.replay, indentJSON(f.Replay), 0o644)
 			pp := &proc{name: "replay-prefix", bin: bin, timeout: 15 * time.Minute, args: []string{"-mode", "replay", "-file", v.replay, "-root", b.rootSerial}}
 			pp.run()
+			if verbose {
+				fmt.Printf("  confirm %s: replay-prefix exit %d in %.1fs\n", tag, pp.exit, pp.wall.Seconds())
+			}
 			if pp.exit == 1 {
 				rp.exit = 1
 			}
